@@ -14,6 +14,8 @@
 #include <yorel/yomm2/keywords.hpp>
 
 #include <cstring>
+#include <memory>
+#include <sstream>
 #include <new>
 
 namespace ys {
@@ -252,6 +254,21 @@ Item decl_item(const char* name) {
     it.kind = RK_CLASS;
     it.classes.push_back({Idx<C>::v, {Idx<Bases>::v...}});
     return it;
+}
+
+// definitions that do not depend on a policy: the same function can be a
+// definition of methods of several policies at once
+int free_ckick_cat(const Cat& x) {
+    g_seen.code = 804;
+    g_seen.n = 1;
+    g_seen.most_derived[0] = md(x);
+    return 804;
+}
+int free_ckick_bulldog(const Bulldog& x) {
+    g_seen.code = 805;
+    g_seen.n = 1;
+    g_seen.most_derived[0] = md(x);
+    return 805;
 }
 
 // ---- the typed world of one policy
@@ -647,6 +664,8 @@ struct Lab {
         v.push_back(def_item<wkick, typename wkick::template add_function<wkick_bulldog>>("wkick(Bulldog)", 10, {cBulldog}, 833));
         v.push_back(def_item<svkick, typename svkick::template add_function<svkick_vd>>("svkick(VD)", 11, {cVD}, 841));
         v.push_back(def_item<svkick, typename svkick::template add_function<svkick_vr>>("svkick(VR)", 11, {cVR}, 842));
+        v.push_back(def_item<ckick, typename ckick::template add_function<free_ckick_cat>>("ckick(Cat), policy-independent function", 7, {cCat}, 804));
+        v.push_back(def_item<ckick, typename ckick::template add_function<free_ckick_bulldog>>("ckick(Bulldog), policy-independent function", 7, {cBulldog}, 805));
         // kick(Cat)+next registered again, this time without naming its next
         int original = -1;
         for (int i = 0; i < (int)v.size(); ++i)
@@ -1044,6 +1063,7 @@ struct TwExec {
     bool used_mi = false, used_vb = false, used_history = false;
     std::uint64_t failed_loads = 0, dups = 0;
     std::uint64_t calls_by_method[12] = {}, defs_run_by_method[12] = {};
+    std::vector<std::string> trace; // reports and outcome tables, in order
 
     void check_catalog_sizes(const std::string& when) {
         std::size_t ncls = 0, nmeth = 0;
@@ -1262,9 +1282,12 @@ struct TwExec {
                 if (!legal_now())
                     continue;
                 try {
-                    y2::update<P>();
+                    auto comp = y2::update<P>();
                     clean = true;
                     ++updates;
+                    trace.push_back("report " + std::to_string(comp.report.cells) + "/" +
+                                    std::to_string(comp.report.not_implemented) + "/" +
+                                    std::to_string(comp.report.ambiguous));
                 } catch (TwThrow& t) {
                     fail("C07", "update-failed",
                          "update of a well-formed typed registry reported error alternative " +
@@ -1272,8 +1295,13 @@ struct TwExec {
                     return;
                 }
             } else if (op == "check") {
-                if (clean)
+                if (clean) {
                     check();
+                    std::string t = "table";
+                    for (auto& kv : table)
+                        t += " " + kv.first + "=" + kv.second;
+                    trace.push_back(t);
+                }
             }
             ++events;
             h.str(op);
@@ -1561,7 +1589,7 @@ J tw_gen(std::uint64_t seed, int tier, long) {
     bool eager_custom = pol == "tw_cus";
     // which part of the menu this run may use (swarm)
     constexpr int CI_END = 25, M_END = 37; // class items, then methods, then definitions
-    int nitems = 73; // the last one is the duplicate registration
+    int nitems = 75; // the last one is the duplicate registration
     std::vector<int> enabled;
     double p = 0.35 + 0.5 * (r.below(100) / 100.0);
     for (int k = 0; k < nitems; ++k)
@@ -1680,7 +1708,207 @@ std::vector<J> tw_shrinks(const J& c) {
     return out;
 }
 
+// ---- two typed worlds at once (C14): policies P and Q each go through their
+// own history, interleaved by the seed; afterwards each history is run again
+// alone. Reports, outcome tables and oracle verdicts of a policy must not
+// depend on what the other policy did. Definitions that are policy-independent
+// functions (free functions, member functions) are shared by both.
+
+struct TwDriverBase {
+    virtual ~TwDriverBase() {
+    }
+    virtual void step(const J& ev) = 0;
+    virtual std::vector<std::string> trace() = 0;
+    virtual std::vector<std::string> verdicts() = 0;
+    virtual std::uint64_t calls() = 0;
+    virtual bool cleanup() = 0; // false: residue
+};
+
+template<class P>
+struct TwDriver : TwDriverBase {
+    TwExec<P> ex;
+    void step(const J& ev) override {
+        ex.run({ev});
+    }
+    std::vector<std::string> trace() override {
+        return ex.trace;
+    }
+    std::vector<std::string> verdicts() override {
+        std::vector<std::string> v;
+        for (auto& x : ex.viols)
+            v.push_back(x.prop + "/" + x.cls);
+        return v;
+    }
+    std::uint64_t calls() override {
+        return ex.calls;
+    }
+    bool cleanup() override {
+        ex.cleanup();
+        return P::classes.empty() && P::methods.empty();
+    }
+};
+
+std::unique_ptr<TwDriverBase> tw_driver(const std::string& p) {
+    if (p == "tw_rel")
+        return std::make_unique<TwDriver<tw_rel>>();
+    if (p == "tw_ind")
+        return std::make_unique<TwDriver<tw_ind>>();
+    if (p == "tw_cus")
+        return std::make_unique<TwDriver<tw_cus>>();
+    if (p == "tw_dfr")
+        return std::make_unique<TwDriver<tw_dfr>>();
+    if (p == "tw_dfh")
+        return std::make_unique<TwDriver<tw_dfh>>();
+    if (p == "tw_ref")
+        return std::make_unique<TwDriver<tw_ref>>();
+    return std::make_unique<TwDriver<tw_dbg>>();
+}
+
+J tw2_gen(std::uint64_t seed, int tier, long index) {
+    Rng r(seed ^ 0x7722);
+    J a = tw_gen(r.next(), tier, index);
+    J b = tw_gen(r.next(), tier, index);
+    static const char* pols[] = {"tw_dbg", "tw_rel", "tw_ind", "tw_cus", "tw_dfr", "tw_dfh", "tw_ref"};
+    std::string pa = pols[r.below(7)], pb = pols[r.below(7)];
+    while (pb == pa)
+        pb = pols[r.below(7)];
+    J c = J::obj();
+    J ps = J::arr();
+    ps.push(pa);
+    ps.push(pb);
+    c.set("policies", ps);
+    // interleave; load_fail (a custom-rtti fault) only where it applies
+    J evs = J::arr();
+    std::size_t ia = 0, ib = 0;
+    auto& ea = a.at("events").a;
+    auto& eb = b.at("events").a;
+    // bursts: one policy does several things while the other waits
+    while (ia < ea.size() || ib < eb.size()) {
+        int who = r.chance(0.5) ? 0 : 1;
+        int burst = (int)r.range(1, 8);
+        for (int k = 0; k < burst; ++k) {
+            auto& src = who ? eb : ea;
+            auto& i = who ? ib : ia;
+            if (i >= src.size())
+                break;
+            J ev = src[i++];
+            if (!ev.a.empty() && ev.a[0].s == "load_fail" && (who ? pb : pa) != "tw_cus")
+                continue;
+            J e = J::arr();
+            e.push(who);
+            e.push(ev);
+            evs.push(e);
+        }
+    }
+    c.set("events", evs);
+    return c;
+}
+
+MiniOutcome tw2_run(const J& c) {
+    MiniOutcome o;
+    std::string pol[2] = {c.at("policies").a[0].s, c.at("policies").a[1].s};
+    if (pol[0] == pol[1]) {
+        o.detail = "invalid: one policy";
+        return o;
+    }
+    std::vector<std::string> together[2], verdicts[2];
+    std::uint64_t calls = 0;
+    Hash h;
+    {
+        auto d0 = tw_driver(pol[0]);
+        auto d1 = tw_driver(pol[1]);
+        for (auto& e : c.at("events").a) {
+            if (e.a.size() != 2)
+                continue;
+            int who = (int)e.a[0].i() ? 1 : 0;
+            (who ? d1 : d0)->step(e.a[1]);
+        }
+        together[0] = d0->trace();
+        together[1] = d1->trace();
+        verdicts[0] = d0->verdicts();
+        verdicts[1] = d1->verdicts();
+        calls = d0->calls() + d1->calls();
+        bool ok0 = d0->cleanup(), ok1 = d1->cleanup();
+        if (!ok0 || !ok1)
+            o.poisoned = true;
+    }
+    for (int who = 0; who < 2 && !o.poisoned; ++who) {
+        auto d = tw_driver(pol[who]);
+        for (auto& e : c.at("events").a)
+            if (e.a.size() == 2 && ((int)e.a[0].i() ? 1 : 0) == who)
+                d->step(e.a[1]);
+        auto alone = d->trace();
+        auto valone = d->verdicts();
+        if (!d->cleanup())
+            o.poisoned = true;
+        if (o.key.empty() && (alone != together[who] || valone != verdicts[who])) {
+            o.key = "C14/tw2/solo-diff";
+            std::string what = "the oracles' verdicts differ";
+            for (std::size_t i = 0; i < alone.size() || i < together[who].size(); ++i) {
+                std::string x = i < alone.size() ? alone[i] : "(nothing)";
+                std::string y = i < together[who].size() ? together[who][i] : "(nothing)";
+                if (x != y) {
+                    // first differing word
+                    std::istringstream sx(x), sy(y);
+                    std::string wx, wy;
+                    while (true) {
+                        bool gx = (bool)(sx >> wx), gy = (bool)(sy >> wy);
+                        if (!gx && !gy)
+                            break;
+                        if (!gx)
+                            wx = "(nothing)";
+                        if (!gy)
+                            wy = "(nothing)";
+                        if (wx != wy)
+                            break;
+                    }
+                    what = "step " + std::to_string(i) + ": alone " + wx + ", next to " +
+                        pol[1 - who] + " " + wy;
+                    break;
+                }
+            }
+            o.detail = "policy " + pol[who] + " behaves differently when " + pol[1 - who] +
+                " is registered and updated in the same program: " + what;
+        }
+        for (auto& t : alone)
+            h.str(t);
+    }
+    for (int who = 0; who < 2; ++who)
+        for (auto& t : together[who])
+            h.str(t);
+    o.hash = h.h;
+    Hash sg;
+    sg.u64(h.h);
+    sg.str(pol[0] + pol[1]);
+    o.signature = sg.h;
+    o.nontrivial = calls > 0 && !together[0].empty() && !together[1].empty();
+    o.counters["events"] = c.at("events").a.size();
+    o.counters["calls"] = calls;
+    o.counters["runs_where_both_policies_were_updated"] = o.nontrivial;
+    return o;
+}
+
 } // namespace
+
+MiniEngine tw2_engine() {
+    MiniEngine e;
+    e.name = "tw2";
+    e.prop = "C14";
+    e.gen = tw2_gen;
+    e.run = tw2_run;
+    e.shrinks = tw_shrinks;
+    e.summary = [](const J& c) {
+        J s = J::obj();
+        s.set("policies", c.at("policies"));
+        s.set("events", J((unsigned long long)c.at("events").a.size()));
+        J head = J::arr();
+        for (std::size_t i = 0; i < c.at("events").a.size() && i < 12; ++i)
+            head.push(c.at("events").a[i]);
+        s.set("first_events", head);
+        return s;
+    };
+    return e;
+}
 
 MiniEngine tw_engine(const std::string& prop) {
     MiniEngine e;
